@@ -283,7 +283,7 @@ func (c *Ctx) finish(verifDir string, t0 time.Time, writeEvidence bool, extraCfg
 		cov["advisory"] = as
 	}
 	cov["values_printed_under_frozen_names"] = c.P.Renamed
-	cov["new_helpers_expanded"] = map[string]interface{}{"helpers": c.P.Inline.Helpers, "call_sites": c.P.Inline.Sites, "left_alone": c.P.Inline.Skipped, "abandoned": c.P.Inline.Fallback}
+	cov["new_helpers_expanded"] = map[string]interface{}{"helpers": c.P.Inline.Helpers, "call_sites": c.P.Inline.Sites, "left_alone": c.P.Inline.Skipped, "abandoned": c.P.Inline.Fallback, "taken_as_renamed": c.P.Inline.Renamed}
 	ev := Evidence{PropertyID: c.Prop, Tier: c.Tier, Seed: seedFromEnv(), Level: "other", Coverage: cov,
 		Assumptions: commonAssumptions, WallS: time.Since(t0).Seconds(), Violations: len(viol)}
 	if writeEvidence {
